@@ -192,17 +192,18 @@ def hs_dispatch(checks=None, n=32, only=None):
     """parseSSLHandshake with DTLS / TLS reassembly over parser stubs"""
     def loops(dtls):
         f = "parseSSLHandshake"
-        msgs = (20 // 12 + 1) if dtls else (12 // 4 + 1)
+        msgs = 4 if dtls else (12 // 4 + 1)
         return {f + ":/goto parseHandshake/": msgs,
                 "dtlsHsHashFragMsg:/while \\(i < MAX_FRAGMENTS\\)/": 30,
                 "dtlsSeenFrag:/for \\(i = 0/": 17, "dtlsInitFrag:/for \\(i = 0/": 17,
                 "vf_harness:/for \\(i = 0; i < MAX_FRAGMENTS/": 17, "vf_harness:/for \\(i = 0; i < NFR/": 4,
                 "vf_harness:/for \\(a = 0/": 4, "vf_harness:/for \\(b = 0/": 4,
-                "memcmp.0": 10, "memcmpct:/./": 12, "vf_bytes:/./": n + 2,
+                "memcmp.0": 10, "memcmpct:/./": 49, "vf_bytes:/./": n + 2,
                 "memmove:/for \\(i = 0/": 49, "realloc:/for \\(i = 0/": 49, "calloc:/for \\(i = 0/": 49, "malloc:/for \\(j = /": 9, "vf_heap_slot_of:/for \\(j = /": 9}
     h = dict(
         name="hs_dispatch", dir="C08", src="hs_dispatch.c", checks=checks if checks is not None else MEMCHECKS,
-        units=["matrixssl/dtls.c", "matrixssl/hsNegotiateVersion.c", "core/src/corelib_strings.c"],
+        units=["matrixssl/dtls.c", "matrixssl/hsNegotiateVersion.c"],
+        native_units=["core/src/corelib_strings.c"],
         functions=["parseSSLHandshake", "dtlsSeenFrag", "dtlsInitFrag", "dtlsHsHashFragMsg"],
         sources=["matrixssl/sslDecode.c", "matrixssl/dtls.c"],
         termination_loops=["dtlsHsHashFragMsg"], native_timeout_s=20,
